@@ -6,7 +6,8 @@ walk terminate - checked as liveness `Terminates` with fairness and as the ranki
 combination, every reference cycle of the universes) replayed through the real parser under a wall-clock limit.  Fault model
 driven from the spec: every JSON-pointer node of seed documents (repository documents + TLC-concretised ones) replaced by each
 junk value; the recorded hook traces must be behaviours of PipelineTrace.tla with OPAQUE shapes (phases in order, termination,
-ranking law).  Loader classes (bytes x JSON/YAML x path/URL) through the real CLI, validated by FsTrace.tla.
+ranking law).  Loader classes (bytes x JSON/YAML x path/URL) through the real CLI, validated by FsTrace.tla.  RefWalk.tla: the reference walks inside one
+components section (seen-list walk, single lookup, retry loop) with their outcome and ranking laws, all 1296 graphs over four names per section replayed.
 """
 from __future__ import annotations
 
@@ -19,7 +20,7 @@ import re
 import threading
 from pathlib import Path
 
-from .. import fshist, gen, ops, pipe, tlc
+from .. import fshist, gen, ops, pipe, refwalk, tlc
 from ..common import NCPU, REPO, rmtree, scratch, seed
 
 JUNK = [None, "", 0, -1, 1.5, True, [], {}, "junk", ["junk"], {"junk": 1}, {"$ref": "#/components/schemas/Nope"},
@@ -421,6 +422,50 @@ def loader_classes(rep, d: Path) -> None:
     rep.extra["loader_runs"] = tid
 
 
+def refwalk_leg(rep, d: Path) -> None:
+    """RefWalk.tla: every reference graph over four names in each components section (request bodies: the seen-list walk; responses,
+    parameters, bare schema references: one lookup; single-reference wrappers: the retry loop), replayed through the real parser."""
+    for section, mode in refwalk.SECTIONS.items():
+        res = refwalk.enumerate_graphs(mode, d)
+        rep.tlc(res)
+        if res.violated:
+            rep.notes.append(f"TLC(RefWalk/{mode}): {sorted(set(res.violated))}")
+        cases = res.printed
+        if len(cases) != 6 ** 4:
+            raise tlc.TlcFailure(f"RefWalk({mode}) emitted {len(cases)} graphs")
+        CH = 216
+        for ci in range(0, len(cases), CH):
+            chunk = cases[ci:ci + CH]
+            doc, opids = refwalk.concretize(section, [c["g"] for c in chunk], ci)
+            data, exc = gen.parse(doc, limit=60)
+            if exc is not None:
+                # locate one graph of the chunk that does it on its own
+                culprit = None
+                for k, c in enumerate(chunk):
+                    one, _ = refwalk.concretize(section, [c["g"]], ci + k)
+                    _, e1 = gen.parse(one, limit=3)
+                    if e1 is not None:
+                        culprit = (c, one, e1)
+                        break
+                c, one, e1 = culprit or (chunk[0], doc if len(chunk) == 1 else None, exc)
+                rep.violate(f"C06/crash/{crash_site(e1)}/refwalk/{section}", f"reference graph {c['g']} in components/{section} (RefWalk.tla says: {c['out']}): "
+                            f"{'the parser does not return' if e1 == 'HANG' else 'unhandled exception'}", graph=c["g"], doc=one, exc=e1)
+                break
+            if not hasattr(data, "endpoint_collections_by_tag"):
+                rep.violate(f"C06/refwalk/{section}/document-rejected", f"a document whose only fault is inside components/{section} is rejected as a whole: {getattr(data, 'detail', '')[:200]}")
+                break
+            obs = refwalk.observe(section, data, opids)
+            for c, oid in zip(chunk, opids):
+                o = obs[oid]
+                rep.count(1, ("refwalk", section, json.dumps(c["g"], sort_keys=True)))
+                if not o["resolved"] and not o["diag"]:
+                    rep.violate(f"C06/refwalk/{section}/unresolved-without-diagnostic", f"reference graph {c['g']} in components/{section}: the use site is not generated and nothing is reported",
+                                graph=c["g"])
+                if o["resolved"] != (c["out"] == "resolved"):
+                    rep.drifted(mode="refwalk", section=section, graph=c["g"], model=c["out"], real=o)
+        rep.extra.setdefault("refwalk_graphs", {})[section] = len(cases)
+
+
 def run(rep) -> None:
     quick = rep.tier == "quick"
     rnd = random.Random(seed() * 1021 + 6)
@@ -450,6 +495,7 @@ def run(rep) -> None:
                             op=c["op"], exc=pr["exc"])
         rep.extra["documents"] = len(cases)
         rep.extra["operations"] = len(ocases)
+        refwalk_leg(rep, d)
         corruption(rep, rnd, quick, d)
         loader_classes(rep, d)
         # exit-status law and "rejected writes nothing" on the model
